@@ -35,15 +35,20 @@ fn exec() {
         let ws: Vec<&str> = line.split_whitespace().collect();
         if ws.is_empty() { continue; }
         if ws[0].starts_with('#') || ws[0] == "=" { continue; }
-        writeln!(out, "{}", line.trim()).unwrap();
         if ws[0] == "hdr" {
+            writeln!(out, "{}", line.trim()).unwrap();
             stream = ws.get(1).unwrap_or(&"").to_string();
             writeln!(out, "= hdr {}", stream).unwrap();
             continue;
         }
+        if stream == "asm" {
+            // block-structured requests are answered once the block is complete
+            asm_state.feed(&line, &mut out);
+            continue;
+        }
+        writeln!(out, "{}", line.trim()).unwrap();
         let ans = match stream.as_str() {
             "reloc" => reloc::handle(&ws),
-            "asm" => asm_state.handle(&ws),
             _ => "bad-stream".to_string(),
         };
         writeln!(out, "= {}", ans).unwrap();
